@@ -193,6 +193,8 @@ def cases(tier):
     alpha = [p for p, _ in file_alphabet(B0)]
     kmax = 3 if quick else 4
     subsets = [c for k in range(1, kmax + 1) for c in itertools.combinations(alpha, k)]
+    # subsets used for the priority-magnitude family: two multi-block files (+ an unlisted third)
+    two_three = [c for c in subsets if len(c) in (2, 3) and b"a/m" in c and b"b/d1" in c]
     base_cfgs = [dict(comp="gzip", bs=B0), dict(comp="gzip", bs=B0, T=1)] + ([] if quick else [dict(comp="zstd", bs=B0, e=1), dict(comp="gzip", bs=8192), dict(comp="lz4", bs=B0, T=1, e=1)])
     for files in subsets:
         paths = sorted(files)
@@ -205,6 +207,12 @@ def cases(tier):
                 lines = [(pr, [], "exact", p.decode("latin1")) for pr, p in reversed(list(zip(vec, paths)))]
                 for cfg in (base_cfgs[:1] if (quick and len(paths) == 3) else base_cfgs[:2]):
                     yield dict(files=files, lines=lines, cfg=cfg)
+        # A2. priority magnitudes: the priority is a signed 64-bit number; all ordered pairs over its boundary alphabet on two files (a third stays unlisted = 0)
+        if len(paths) in (2, 3) and (not quick or files in two_three[:2]):
+            P64 = [-(1 << 63) + 2, -(1 << 62), -(1 << 32) - 1, -(1 << 31) - 1, -(1 << 31), -3000000000, -1, 0, 1, (1 << 31) - 1, 1 << 31, 3000000000, 1 << 32, (1 << 32) + 1, 1 << 62, (1 << 63) - 2]
+            for p1, p2 in itertools.product(P64, repeat=2):
+                lines = [(p2, [], "exact", paths[-1].decode("latin1")), (p1, [], "exact", paths[0].decode("latin1"))]
+                yield dict(files=files, lines=lines, cfg=base_cfgs[0])
         # B. every flag subset on each file in turn
         if len(paths) <= 2 or not quick:
             for p in paths:
